@@ -86,6 +86,9 @@ def tracegen_jobs(tier):
         for bs in (0, 16, 512, 100000):
             J.seed_job(cfg(P, bufsize=bs)); J.bytes_job(cfg(P, 10, 60, bufsize=bs))
         J.seed_job(cfg(P, 10, 60, muts=MUTS, rate=0.5, alt_builder=True))
+        for ms in DUP_LISTS:       # one-at-a-time registration of a list that repeats a name
+            J.seed_job(cfg(P, 10, 60, muts=ms, rate=1.0, alt_builder=True))
+            J.bytes_job(cfg(P, 10, 60, muts=ms, rate=1.0, alt_builder=True))
         # E opt-in opcode flags
         for ext in (False, True):
             for buf in (False, True):
@@ -139,4 +142,10 @@ def tracegen_jobs(tier):
             J.bytes_job(cfg(P), blen=3000, warm=warm)
             J.seed_job(cfg(P, 20, 80, ext=True, buf=True), warm=warm)
             J.seed_job(cfg(P, 10, 80, muts=MUTS, rate=0.5, unsafe=True), warm=warm)
+            # the caller takes the buffer out of the public `output` field between calls
+            J.seed_job(cfg(P), warm=warm, take_output=True)
+            J.bytes_job(cfg(P, 10, 60, ext=True, buf=True), warm=warm, take_output=True)
+        # an earlier call with a very large memo, then an ordinary pickle
+        if P >= 1:
+            J.seed_job(cfg(P, 3500, 4500), warm=1)
     return J.jobs
